@@ -18,7 +18,13 @@ RULE = ('T2: Method/Protocol/Status parse+compose, Request/Response line parse (
 	'method name the tree mentions in five letter cases through status / status line / client / server / compose; limit lengths 11..65536 of reason, blank runs, target, method and version digits '
 	'(model up to 300 octets, oracle beyond); degenerate lines, components and text operands; versions with leading zeros and list / text-tuple operands; look-alike and normalisation-form '
 	'text in the method / version / reason positions of the API (uni, oracle) and as UTF-8 on the wire; seq (oracle): one Method / Protocol / Status / Request / Response object parsed, set through '
-	'every public way and composed repeatedly, values taken over by a second message, server and client machines over several messages = what fresh objects give')
+	'every public way and composed repeatedly, values taken over by a second message, server and client machines over several messages = what fresh objects give. '
+	'Fifth wave (oracle only unless an existing kind is named): alias = objects built from one argument object or from each other\'s parts, one changed, the other and the argument as before, incl. the '
+	'request / response pair of the server; argt = every entry point with tuple / list / one-shot iterators / dict / deque / text-tuple / str / bytes / bytearray / memoryview / Protocol / Status arguments; '
+	'refuse = refused calls (invalid text, wrong types, wrong arity, unencodable text) leave Method / Protocol / Status / Request / Response as they were; knob = the negotiation with '
+	'ServerProtocol set to six other values; sort = sorted / min / max of version lists and comparisons with the plain operand on the left; perm = every order of constructor arguments and '
+	'attribute assignments; through the existing kinds: methods x versions, codes x versions, machine input per octet / two calls / bytearray / memoryview, names, numbers and phrases of special '
+	'shape, lengths 2^k and 2^k+-1 (k = 9..16) of reason, target, blank runs, digits and of the whole line')
 EXHAUSTIVE = {'quick': False, 'thorough': True}
 TRUSTED = ['harness/tables/startline.py (T1: octet classes of METHOD_RE/STATUS_RE/PROTOCOL_RE by probing the compiled regexes, pattern strings, composer literals, ServerProtocol, int digit limit)',
 	'harness/props/C18.py + coq/Corr/C18.v (T2; the argument of URI.parse is recorded by wrapping the method from outside the package)',
@@ -270,6 +276,7 @@ def gen_cases(rng, tier):
 	for code in range(0, 1000, 1 if big else 7):
 		cases.append({'k': 'client', 'line': (b'HTTP/1.%d %d Reason' % (code % 2, code)).hex()})
 	cases.extend(_wave4(rng, tier))  # appended last: the cases above stay what they were for a given seed
+	cases.extend(_wave5(rng, tier))  # fifth wave, after everything else for the same reason
 	return [c for c in cases if _server_case_ok(c)]
 
 
@@ -745,37 +752,69 @@ def observe(c):
 		return {'rel': [[[_cmp(lambda: ps[i] == os_[j]), _cmp(lambda: ps[i] != os_[j]), _cmp(lambda: ps[i] < os_[j]), _cmp(lambda: ps[i] <= os_[j]),
 			_cmp(lambda: ps[i] > os_[j]), _cmp(lambda: ps[i] >= os_[j])] for j in range(3)] for i in range(3)]}
 	if k == 'server':
-		from httoop.server import ServerStateMachine
-		sm = ServerStateMachine('http', 'localhost', 80)
-		try:
-			out = sm.parse(bytes.fromhex(c['line']) + b'\r\nHost: x\r\n\r\n')
-		except StatusException as exc:
-			return {'res': 'http', 'code': int(exc.code)}
-		except Exception as exc:
-			return {'res': _exc(exc)}
-		if len(out) != 1:
-			return {'res': 'escape:delivered%d' % len(out)}
-		req, resp = out[0]
-		return {'res': 'ok', 'm': bytes(req.method).hex(), 'req': _hv(req.protocol), 'resp': _hv(resp.protocol)}
+		return _observe_server(c)
 	if k == 'client':
-		from httoop.client import ClientStateMachine
-		sm = ClientStateMachine()
-		sm.request = Request()
-		try:
-			out = sm.parse(bytes.fromhex(c['line']) + b'\r\nContent-Length: 0\r\n\r\n')
-		except StatusException as exc:
-			return {'res': 'http', 'code': int(exc.code)}
-		except Exception as exc:
-			return {'res': _exc(exc)}
-		if len(out) != 1:
-			return {'res': 'escape:delivered%d' % len(out)}
-		resp = out[0]
-		return {'res': 'ok', 'v': _hv(resp.protocol), 'code': resp.status.code, 'reason': resp.status.reason.encode('latin-1').hex()}
+		return _observe_client(c)
+	if k in ('alias', 'argt', 'refuse', 'knob', 'sort', 'perm'):
+		return _observe5(c)
 	if k == 'uni':
 		return _observe_uni(c)
 	if k == 'seq':
 		return {'s': _observe_seq(c)}
 	raise ValueError(k)
+
+
+def _feed(sm, data, c):
+	"""one parse() call with the octets as given (the cases of the first four waves), or - fifth wave - the octets in another buffer type
+	('wrap') and / or in several calls ('frag': a cut position, or 'octet')"""
+	if 'wrap' not in c and 'frag' not in c:
+		return sm.parse(data)
+	wrap = {'bytearray': bytearray, 'memoryview': memoryview}.get(c.get('wrap'), bytes)
+	frag = c.get('frag')
+	if frag is None:
+		pieces = [data]
+	elif frag == 'octet':
+		pieces = [data[i:i + 1] for i in range(len(data))]
+	else:
+		pieces = [data[:frag], data[frag:]]
+	out = []
+	for piece in pieces:
+		out.extend(sm.parse(wrap(piece)))
+	return out
+
+
+def _observe_server(c):
+	from httoop.server import ServerStateMachine
+	from httoop.status.types import StatusException
+	sm = ServerStateMachine(*c.get('sm', ['http', 'localhost', 80]))
+	try:
+		out = _feed(sm, bytes.fromhex(c['line']) + b'\r\nHost: x\r\n\r\n', c)
+	except StatusException as exc:
+		return {'res': 'http', 'code': int(exc.code)}
+	except Exception as exc:
+		return {'res': _exc(exc)}
+	if len(out) != 1:
+		return {'res': 'escape:delivered%d' % len(out)}
+	req, resp = out[0]
+	return {'res': 'ok', 'm': bytes(req.method).hex(), 'req': _hv(req.protocol), 'resp': _hv(resp.protocol)}
+
+
+def _observe_client(c):
+	from httoop.client import ClientStateMachine
+	from httoop.messages.request import Request
+	from httoop.status.types import StatusException
+	sm = ClientStateMachine()
+	sm.request = Request()
+	try:
+		out = _feed(sm, bytes.fromhex(c['line']) + b'\r\nContent-Length: 0\r\n\r\n', c)
+	except StatusException as exc:
+		return {'res': 'http', 'code': int(exc.code)}
+	except Exception as exc:
+		return {'res': _exc(exc)}
+	if len(out) != 1:
+		return {'res': 'escape:delivered%d' % len(out)}
+	resp = out[0]
+	return {'res': 'ok', 'v': _hv(resp.protocol), 'code': resp.status.code, 'reason': resp.status.reason.encode('latin-1').hex()}
 
 
 def _try(fn):
@@ -1008,7 +1047,7 @@ def _cres(s):
 
 def coq_case(c, o):
 	k = c['k']
-	if 'skip' in o or k in ('order3', 'uni', 'seq'):
+	if 'skip' in o or k in ('order3', 'uni', 'seq', 'alias', 'argt', 'refuse', 'knob', 'sort', 'perm'):
 		return None
 	if k == 'cmp' and c['o'] in ('list', 'strtuple', 'strlist'):
 		return None  # operand spellings outside the model's vocabulary: oracle only
@@ -1320,26 +1359,32 @@ def oracle(c, o):
 		return _oracle_seq(c, o['s'])
 	if k == 'server':
 		from httoop.version import ServerProtocol
-		own = (int(ServerProtocol.major), int(ServerProtocol.minor))
-		line = bytes.fromhex(c['line'])
-		f = line.split()
-		if len(f) != 3 or _version_form(f[2]) is None or _bad_method_octet(f[0]):
-			return None if res == 'http' and o['code'] == 400 else 'malformed request line %r was not answered with 400: %r' % (line, o)
-		form = _version_form(f[2])
-		if not _is_prop_method(f[0]) or _over_limit(*form) or f[1] not in SAFE_TARGETS:
-			return None
-		v = (int(form[0]), int(form[1]))
-		if v[0] > own[0]:
-			return None if res == 'http' and o['code'] == 505 else 'major version %r above the server\'s %r was not refused with 505: %r' % (v, own, o)
-		if res == 'http' and o['code'] == 505 and v > own:
-			return None
-		low = min(v, own)
-		if res != 'ok':
-			return 'request with version %r was not served: %r' % (v, o)
-		got = (int(o['resp'][0], 16), int(o['resp'][1], 16))
-		if got != low or (int(o['req'][0], 16), int(o['req'][1], 16)) != v or bytes.fromhex(o['m']) != f[0]:
-			return 'request %r: response version %r, expected the lower of %r and %r' % (line, got, v, own)
+		return _oracle_server(c, o, (int(ServerProtocol.major), int(ServerProtocol.minor)))
+	if k in ('alias', 'argt', 'refuse', 'knob', 'sort', 'perm'):
+		return _oracle5(c, o)
+	return None
+
+
+def _oracle_server(c, o, own):
+	res = o.get('res', '')
+	line = bytes.fromhex(c['line'])
+	f = line.split()
+	if len(f) != 3 or _version_form(f[2]) is None or _bad_method_octet(f[0]):
+		return None if res == 'http' and o['code'] == 400 else 'malformed request line %r was not answered with 400: %r' % (line, o)
+	form = _version_form(f[2])
+	if not _is_prop_method(f[0]) or _over_limit(*form) or f[1] not in SAFE_TARGETS:
 		return None
+	v = (int(form[0]), int(form[1]))
+	if v[0] > own[0]:
+		return None if res == 'http' and o['code'] == 505 else 'major version %r above the server\'s %r was not refused with 505: %r' % (v, own, o)
+	if res == 'http' and o['code'] == 505 and v > own:
+		return None
+	low = min(v, own)
+	if res != 'ok':
+		return 'request with version %r was not served: %r' % (v, o)
+	got = (int(o['resp'][0], 16), int(o['resp'][1], 16))
+	if got != low or (int(o['req'][0], 16), int(o['req'][1], 16)) != v or bytes.fromhex(o['m']) != f[0]:
+		return 'request %r: response version %r, expected the lower of %r and %r' % (line, got, v, own)
 	return None
 
 
@@ -1567,3 +1612,1274 @@ LEVEL_NOTE = ('Trusted: Coq kernel + vm_compute; harness/tables/startline.py (T1
 	'(validated, not verified); the request target is an arbitrary blank-free token (URI parsing is C10). Known finding D40: a version number with more '
 	'digits than CPython converts (4300) raises ValueError instead of being rejected. No axioms (Print Assumptions: closed).')
 TECHNIQUE = 'Coq proof by induction over octet lists on a Gallina model + vm_compute correspondence against the implementation'
+
+
+# ------------------------------------------------------------------------------------------------ fifth wave: classes (10)-(17) of DESIGN.md section 8
+# New kinds, all oracle only: alias (10), argt (11), refuse (12), knob (13), sort (14), perm (15); classes (15)-(17) also feed the existing kinds
+# (cross products method x version / code x version, fragmented and re-typed machine input, special values, lengths 2^k and 2^k+-1).
+# Kept OUT of the generator, because the clean tree does not do what the bytes form does (reported, API outside the wording of C18):
+#  * Method.parse / Method.set / Request.parse with a bytearray or memoryview: the name is stored as given and bytes(method) raises TypeError;
+#  * Protocol.parse / Status.parse of a REFUSED text given as memoryview: AttributeError (the error path calls .decode) - memoryview carries valid texts only;
+#  * Request.parse / Response.parse with a memoryview (no .strip);
+#  * a bytearray / memoryview version text as Protocol.set argument or comparison operand is read as an iterable of integers (ValueError), see _oracle_refuse;
+#  * `<=` and `>=` against a one-shot iterator (Semantic.__le__ consumes it with == and hands the empty iterator to <: ValueError);
+#  * Response(status=...) with anything but an int (Status object: TypeError unhashable; text / tuple: ValueError / TypeError from Status.__init__);
+#  * a request / status line refused for its method / target / status AFTER the version was accepted leaves the new version behind (version is parsed first).
+POW2 = [2 ** k + d for k in range(9, 17) for d in (-1, 0, 1)]
+ONESHOT = ('iter', 'gen', 'map', 'chain')
+KEYED = ('dict', 'odict', 'dictkeys')
+VERKINDS = ['tuple', 'list', 'iter', 'gen', 'map', 'chain', 'dict', 'odict', 'dictkeys', 'deque', 'strtuple', 'strlist', 'bytestuple', 'mixed', 'str', 'bytes', 'proto']
+NUMS = [0, 1, 2, 9, 10, 11, 19, 20, 99, 100, 101, 255, 256, 999, 1000, 1001, 2 ** 32 - 1, 2 ** 32, 2 ** 63 - 1, 2 ** 63, 2 ** 64]
+ODD_WORDS = [b'200', b'0', b'00', b'HTTP', b'1_1', b'OK', b'ok', b'Ok', b'a', b'A', b'_', b'__', b'9', b'404', b'Found', b'Not', b'x', b'y', b'z', b'HTTP_1_1']
+ODD_METHODS = [b'HTTP', b'1.1', b'200', b'HTTP.1.1', b'0', b'00', b'-', b'.', b'$', b'_', b'..', b'--', b'__', b'$$', b'.-', b'-.', b'_.', b'$-_.', b'...', b'G..T', b'G--T', b'..GET', b'GET..',
+	b'1', b'12', b'0x1', b'1e0', b'OK', b'200.OK', b'GET.', b'.GET', b'-GET', b'GET-', b'$GET', b'GET$', b'_GET', b'GET_', b'G.E.T', b'g-e_t', b'0GET', b'GET0']
+
+
+class _StrObj(object):
+	def __init__(self, text):
+		self.text = text
+
+	def __str__(self):
+		return self.text
+
+
+def _mkver(kind, v):
+	"""the version [v] as an argument object of the given type"""
+	import collections
+	import itertools
+	from httoop.messages.protocol import Protocol
+	a, b = int(v[0]), int(v[1])
+	return {'tuple': lambda: (a, b), 'list': lambda: [a, b], 'iter': lambda: iter([a, b]), 'gen': lambda: (x for x in (a, b)),
+		'map': lambda: map(int, [str(a), str(b)]), 'chain': lambda: itertools.chain([a], [b]), 'dict': lambda: {a: 'major', b: 'minor'},
+		'odict': lambda: collections.OrderedDict([(a, 0), (b, 1)]), 'dictkeys': lambda: {a: 0, b: 1}.keys(), 'deque': lambda: collections.deque([a, b]),
+		'strtuple': lambda: (str(a), str(b)), 'strlist': lambda: [str(a), str(b)], 'bytestuple': lambda: (b'%d' % a, b'%d' % b), 'mixed': lambda: (a, str(b)),
+		'str': lambda: _vtext((a, b)).decode(), 'bytes': lambda: _vtext((a, b)), 'proto': lambda: Protocol((a, b))}[kind]()
+
+
+def _pv(p):
+	try:
+		return [bytes(p).hex(), [int(x) for x in p.version]]
+	except Exception as exc:
+		return ['exc:%s' % type(exc).__name__, None]
+
+
+def _pvwant(v):
+	return [_vtext(v).hex(), [int(v[0]), int(v[1])]]
+
+
+def _argval(kind, arg):
+	"""what a re-usable argument object holds (after the call)"""
+	if kind in ('tuple', 'list', 'deque', 'strtuple', 'strlist', 'bytestuple', 'mixed', 'dict', 'odict', 'dictkeys'):
+		return [x.decode() if isinstance(x, bytes) else x for x in arg]
+	if kind == 'str':
+		return arg
+	if kind == 'bytes':
+		return arg.decode('latin-1')
+	if kind == 'proto':
+		return _pv(arg)
+	return None
+
+
+def _argwant(kind, v):
+	a, b = int(v[0]), int(v[1])
+	if kind in ('tuple', 'list', 'deque', 'dict', 'odict', 'dictkeys'):
+		return [a, b]
+	if kind in ('strtuple', 'strlist', 'bytestuple'):
+		return [str(a), str(b)]
+	if kind == 'mixed':
+		return [a, str(b)]
+	if kind in ('str', 'bytes'):
+		return _vtext((a, b)).decode()
+	if kind == 'proto':
+		return _pvwant((a, b))
+	return None
+
+
+def _mkbad(spec):
+	"""argument objects of the refuse kind, from their JSON description"""
+	import collections
+	t = spec[0]
+	val = spec[1] if len(spec) > 1 else None
+
+	def item(x):
+		return bytes.fromhex(x[1]) if isinstance(x, list) and x and x[0] == 'b' else x
+	if t == 'none':
+		return None
+	if t in ('int', 'float', 'str'):
+		return val
+	if t == 'bytes':
+		return bytes.fromhex(val)
+	if t == 'bytearray':
+		return bytearray(bytes.fromhex(val))
+	if t == 'memoryview':
+		return memoryview(bytes.fromhex(val))
+	if t == 'tuple':
+		return tuple(item(x) for x in val)
+	if t == 'list':
+		return [item(x) for x in val]
+	if t == 'iter':
+		return iter([item(x) for x in val])
+	if t == 'dict':
+		return collections.OrderedDict((item(x), i) for i, x in enumerate(val))
+	if t == 'obj':
+		return object()
+	if t == 'strobj':
+		return _StrObj(val)
+	raise ValueError(t)
+
+
+def _wave5(rng, tier):
+	big = tier == 'thorough'
+	mult = 4 if big else 1
+	out = []
+	grid = _versions_grid()
+	reasons, methods = _registries()
+	own_or_lower = [v for v in grid if v <= (1, 1)]
+	words = ['OK', 'Not Found', 'a_b 9', 'X', 'I am a teapot', 'not found', 'x y x y']
+	good_m = ['GET', 'HEAD', 'POST', 'PUT', 'DELETE', 'OPTIONS', 'TRACE', 'PATCH', 'M-SEARCH', 'get', 'Get', '$x_y.z-1', 'A' * 20, 'a']
+
+	def rv(kind=None):
+		while True:
+			v = rng.choice(grid) if rng.random() < 0.85 else (rng.choice(NUMS), rng.choice(NUMS))
+			if kind not in KEYED or v[0] != v[1]:
+				return list(v)
+
+	# (10) aliasing: objects built from the same argument object, or from each other's parts
+	for kind in ('tuple', 'list', 'dict', 'odict', 'deque', 'proto', 'str', 'bytes'):
+		for _ in range(12 * mult):
+			vs = [list(x) for x in rng.sample(grid, 4)]
+			vs[0] = rv(kind)
+			out.append({'k': 'alias', 'sc': 'proto_arg', 'arg': kind, 'v': vs})
+	for _ in range(40 * mult):
+		out.append({'k': 'alias', 'sc': 'status_arg', 'arg': rng.choice(['status', 'status', 'tuple']), 'c': rng.sample(range(100, 600), 3), 'r': rng.sample(words, 3)})
+	for cls in ('request', 'response'):
+		for kind in ('proto', 'tuple', 'list', 'str', 'bytes'):
+			for _ in range(8 * mult):
+				out.append({'k': 'alias', 'sc': 'msg_ctor', 'cls': cls, 'arg': kind, 'v': [list(x) for x in rng.sample(grid, 3)]})
+		for how in ('inplace', 'attr', 'line'):
+			for d in (0, 1):
+				for _ in range(6 * mult):
+					out.append({'k': 'alias', 'sc': 'msg_assign', 'cls': cls, 'how': how, 'dir': d, 'v': [list(x) for x in rng.sample(grid, 2)],
+						'm': rng.choice(good_m[:9]), 'c': rng.randint(100, 599), 'r': rng.choice(words)})
+	for v in own_or_lower:
+		for act in ('resp_parse', 'resp_set', 'req_parse', 'req_set'):
+			out.append({'k': 'alias', 'sc': 'server_resp', 'm': rng.choice(NOBODY).decode(), 'v': list(v), 'act': act, 'v1': list(rng.choice([x for x in grid if x != v]))})
+	for _ in range(40 * mult):
+		out.append({'k': 'alias', 'sc': 'client_resp', 'v': [list(x) for x in rng.sample(grid, 3)], 'act': rng.choice(['proto_parse', 'proto_set', 'status_parse', 'status_set'])})
+
+	# (11) argument types of every entry point
+	for how in ('ctor', 'set', 'reqctor', 'reqattr', 'respctor', 'respattr'):
+		for kind in VERKINDS:
+			for _ in range(2 * mult):
+				out.append({'k': 'argt', 'sc': 'pset', 'how': how, 'arg': kind, 'v': rv(kind)})
+	for kind in ('iter', 'gen', 'map', 'chain', 'dict', 'odict', 'dictkeys', 'deque', 'bytestuple', 'mixed', 'strlist', 'list'):
+		for _ in range(25 * mult):
+			p, q = rv(), rv(kind)
+			r = rng.random()
+			if r < 0.3:
+				q = [p[0], q[1]]
+			elif r < 0.4:
+				q = list(p)
+			if kind in KEYED and q[0] == q[1]:
+				q[1] += 1
+			out.append({'k': 'argt', 'sc': 'pcmp', 'p': p, 'arg': kind, 'q': q})
+	bad_v = [x for x in MALFORMED_VERSIONS if _version_form(x) is None]
+	for wrap in ('bytes', 'bytearray', 'memoryview'):
+		for _ in range(14 * mult):
+			out.append({'k': 'argt', 'sc': 'parse', 'obj': 'proto', 'wrap': wrap, 'data': _vtext(rv()).hex()})
+			out.append({'k': 'argt', 'sc': 'parse', 'obj': 'status', 'wrap': wrap, 'data': (b'%d ' % rng.randint(100, 599) + rng.choice(words).encode()).hex()})
+		if wrap != 'memoryview':
+			for _ in range(10 * mult):
+				out.append({'k': 'argt', 'sc': 'parse', 'obj': 'proto', 'wrap': wrap, 'data': rng.choice(bad_v).hex()})
+				out.append({'k': 'argt', 'sc': 'parse', 'obj': 'status', 'wrap': wrap, 'data': (b'%d ' % rng.choice([0, 99, 600, 999, 1000]) + rng.choice(words).encode()).hex()})
+				out.append({'k': 'argt', 'sc': 'parse', 'obj': 'resp', 'wrap': wrap, 'data': _rline(rng, [_vtext(rv()), b'%d' % rng.randint(100, 599), rng.choice(words).encode()]).hex()})
+				out.append({'k': 'argt', 'sc': 'parse', 'obj': 'resp', 'wrap': wrap, 'data': rng.choice([b'HTTP/1.1', b'HTTP/1.1 99 x', b'HTTP/x 200 OK', b'', b'HTTP/1.1 600 x']).hex()})
+	for _ in range(14 * mult):  # the text of the objects: str(), format(), %s (bytes input)
+		out.append({'k': 'argt', 'sc': 'parse', 'obj': 'method', 'wrap': 'bytes', 'data': _rword(rng, PROP_ALPHABET, 1, 20).hex()})
+	for how in ('ctor', 'set', 'reqctor', 'reqattr'):
+		for t in ('str', 'bytes'):
+			for _ in range(8 * mult):
+				name = rng.choice(good_m + [_rword(rng, PROP_ALPHABET, 1, 20).decode()] * 6)
+				out.append({'k': 'argt', 'sc': 'mset', 'how': how, 't': t, 'name': name})
+			for name in ('G T', 'G\x00T', '', 'A' * 21, 'GET\n'):
+				if name or how in ('set', 'reqattr'):
+					out.append({'k': 'argt', 'sc': 'mset', 'how': how, 't': t, 'name': name})
+	for how in ('set', 'ctor2', 'respattr'):
+		for t in ('tuple', 'tupleb', 'tuples', 'tuplebb', 'str', 'bytes', 'status', 'int'):
+			if how == 'ctor2' and t not in ('tuple', 'tupleb', 'int'):
+				continue
+			for _ in range(5 * mult):
+				out.append({'k': 'argt', 'sc': 'sset', 'how': how, 't': t, 'code': rng.randint(100, 599), 'reason': rng.choice(words)})
+	# machine input in another buffer type and in several calls (the outcome is the one of the single bytes call: model and oracle unchanged)
+	srv_lines = [b'GET / HTTP/1.0', b'HEAD /x HTTP/1.1', b'OPTIONS /?q=1 HTTP/0.9', b'GET / HTTP/2.0', b'GET / HTTP/1.2', b'get / HTTP/1.1', b'GET  /\tHTTP/1.0', b'G T / HTTP/1.1', b'GET / HTTP/x', b'GET /']
+	cli_lines = [b'HTTP/1.1 200 OK', b'HTTP/1.0 404 Not Found', b'HTTP/0.9 204 No Content', b'HTTP/2.0 500 x y', b'HTTP/1.1 99 x', b'HTTP/1.1 600 x', b'HTTP/x 200 OK', b'HTTP/1.1 200']
+	for side, lines, tail in (('server', srv_lines, b'\r\nHost: x\r\n\r\n'), ('client', cli_lines, b'\r\nContent-Length: 0\r\n\r\n')):
+		for line in lines:
+			for wrap in ('bytearray', 'memoryview'):
+				out.append({'k': side, 'line': line.hex(), 'wrap': wrap})
+			out.append({'k': side, 'line': line.hex(), 'frag': 'octet'})
+			out.append({'k': side, 'line': line.hex(), 'frag': 'octet', 'wrap': 'memoryview'})
+			cuts = range(1, len(line) + len(tail)) if big else sorted(set(rng.sample(range(1, len(line) + len(tail)), 6) + [len(line), len(line) + 1, len(line) + 2]))
+			for cut in cuts:
+				out.append({'k': side, 'line': line.hex(), 'frag': cut})
+
+	# (12) refused operations leave the object as it was
+	bad_mb = [b'', b'G T', b'G\x00T', b'G\xe9T', b'GET\n', b' GET', b'G\x7f', b'A' * 21, b'GET\r\n', b'\tGET']
+	m_bad = [['parse', ['bytes', x.hex()]] for x in bad_mb] + [['set', ['bytes', x.hex()]] for x in bad_mb[:5]] + [['set', s] for s in (
+		['str', ''], ['str', 'G T'], ['str', 'caf\u00e9'], ['str', 'GET\n'], ['str', 'A' * 21], ['str', 'G\u212aT'], ['none'], ['int', 5], ['tuple', ['GET']], ['list', ['GET']], ['obj'], ['strobj', 'PUT'])]
+	p_args = [['bytes', x.hex()] for x in bad_v[:12]] + [['str', x.decode('latin-1')] for x in bad_v[12:24]] + [['str', 'HTTP/1.\u0661'], ['str', 'HTTP/\uff11.1'], ['none'], ['int', 5], ['float', 1.1],
+		['tuple', [1]], ['tuple', [1, 2, 3]], ['tuple', []], ['tuple', ['x', 'y']], ['tuple', [1, 'x']], ['tuple', ['x', 1]], ['tuple', [None, 1]], ['tuple', [1, None]], ['list', [1, 'b']], ['list', [None, None]],
+		['iter', [1]], ['iter', [1, 2, 3]], ['iter', [2, 'x']], ['dict', [1]], ['dict', [1, 'x']], ['obj'], ['strobj', 'HTTP/1.0'], ['tuple', [1, '']], ['tuple', ['', 1]], ['tuple', [1, ['b', '']]], ['tuple', [2, '1.0']],
+		['tuple', [2, ['b', b'x'.hex()]]], ['bytearray', b'HTTP/1.0'.hex()], ['memoryview', b'HTTP/1.0'.hex()], ['bytearray', b'HTTP/x'.hex()]]
+	p_bad = [['parse', ['bytes', x.hex()]] for x in bad_v] + [['set', a] for a in p_args] * 2 + [[op, a] for op in ('lt', 'gt', 'le', 'ge', 'eq', 'ne') for a in rng.sample(p_args, 6)]
+	s_bad = [['parse', ['bytes', x.hex()]] for x in (b'', b'99 x', b'600 x', b'200', b'abc', b'200 caf\xe9', b'2000 OK', b' 200 OK', b'20 OK', b'+20 OK', b'200\x00OK', b'200OK', b'999 x', b'099 x', b'1000 x')] + [['set', a] for a in (
+		['none'], ['list', [200, 'OK']], ['bytes', b'200'.hex()], ['str', 'abc def'], ['str', ''], ['str', '200'], ['tuple', ['abc', 'x']], ['tuple', [None, 'x']], ['tuple', [200]], ['tuple', [200, 'a', 'b']], ['float', 3.5],
+		['bytearray', b'200 OK'.hex()], ['tuple', [200, ['b', b'caf\xe9'.hex()]]], ['tuple', ['2_0_0', 'x']], ['int', 99], ['int', 600], ['int', 0], ['int', -200], ['int', 1000], ['obj'], ['strobj', '200 OK'],
+		['str', '2_00 OK'], ['bytes', b'caf\xe9 x'.hex()], ['bytes', b'200 caf\xe9'.hex()], ['tuple', [['b', b'x'.hex()], 'y']])] + [['code', ['str', 'abc']], ['code', ['none']], ['code', ['str', '']], ['code', ['tuple', [200]]]]
+	for _ in range(70 * mult):
+		out.append({'k': 'refuse', 'obj': 'method', 'init': rng.choice(good_m), 'ops': [rng.choice(m_bad) for _ in range(rng.randint(2, 5))]})
+		out.append({'k': 'refuse', 'obj': 'proto', 'init': rv(), 'ops': [rng.choice(p_bad) for _ in range(rng.randint(2, 5))]})
+		out.append({'k': 'refuse', 'obj': 'status', 'init': [rng.randint(100, 599), rng.choice(words)], 'ops': [rng.choice(s_bad) for _ in range(rng.randint(2, 5))]})
+		rq_bad = [['method', a[1]] for a in m_bad if a[0] == 'set'] + [['protocol', a] for a in p_args] + [['parse', ['bytes', x.hex()]] for x in (
+			b'', b' ', b'GET', b'GET /', b'GET / HTTP/1.0 x', b'GET / / HTTP/1.0', b'PUT /y HTTP/x', b'PUT /y HTTP/1', b'PUT /y http/1.0', b'PUT /y HTTP/1.0\x00', b'\r\n', b'PUT /y HTTP/1.\xd9\xa1')]
+		out.append({'k': 'refuse', 'obj': 'request', 'init': [rng.choice(good_m), rng.choice(grid)], 'ops': [rng.choice(rq_bad) for _ in range(rng.randint(2, 5))]})
+		rs_bad = [['status', a[1]] for a in s_bad if a[0] == 'set'] + [['protocol', a] for a in p_args] + [['parse', ['bytes', x.hex()]] for x in (
+			b'', b' ', b'HTTP/1.0', b'HTTP/1.0 ', b'\r\n', b'HTTP/x 404 Not Found', b'HTTP/1 404 Not Found', b'http/1.0 404 Not Found', b'HTTP/1.0\x00 404 Not Found', b'404 HTTP/1.0 Not Found', b'404')]
+		out.append({'k': 'refuse', 'obj': 'response', 'init': [rng.choice(grid), rng.randint(100, 599), rng.choice(words)], 'ops': [rng.choice(rs_bad) for _ in range(rng.randint(2, 5))]})
+	for txt in UNITEXT[:12] + ['caf\u00e9', '\u212a', 'x \u00e9 y']:
+		out.append({'k': 'refuse', 'obj': 'status_unenc', 'init': [rng.randint(100, 599), rng.choice(words)], 'text': txt})
+	for line in (b'GET / HTTP/2.0', b'GET / HTTP/1.2', b'GET / HTTP/3.1', b'GET / HTTP/x', b'G T / HTTP/1.1', b'GET /', b'', b'GET / HTTP/1.10', b'GET / HTTP/01.1', b'GET / HTTP/10.0'):
+		for v in ((1, 0), (0, 9), (1, 1)):
+			out.append({'k': 'refuse', 'obj': 'server', 'bad': line.hex(), 'v': list(v)})
+
+	# (13) the server's own version is a knob: httoop.version.ServerProtocol set (in place) to other values, machine built with other arguments
+	for own in ((1, 0), (1, 1), (2, 0), (1, 5), (0, 9), (3, 11)):
+		for v in grid:
+			line = rng.choice(NOBODY + [b'POST', b'get']) + b' ' + rng.choice(SAFE_TARGETS) + b' ' + _vtext(v)
+			out.append({'k': 'knob', 'own': list(own), 'line': line.hex(), 'sm': rng.choice([['http', 'localhost', 80], ['https', 'example.org', 8443], ['http', '127.0.0.1', 8080]])})
+		for line in (b'GET / HTTP/x', b'GET /', b'G T / HTTP/1.0', b'GET / HTTP/10.0', b'GET / HTTP/01.01'):
+			out.append({'k': 'knob', 'own': list(own), 'line': line.hex()})
+
+	# (14) order: lists of versions sorted / min / max (unsorted, duplicates, reverse-sorted), reflected comparisons; reason phrases with repeated / sorted words
+	pool = [(0, 9), (1, 0), (1, 1), (1, 2), (1, 9), (1, 10), (1, 11), (2, 0), (0, 11), (10, 0), (9, 9), (2, 10), (3, 1)]
+	for _ in range(250 * mult):
+		n = rng.randint(2, 8)
+		vs = [rng.choice(pool if rng.random() < 0.8 else grid) for _ in range(n)]
+		r = rng.random()
+		if r < 0.2:
+			vs = sorted(vs, reverse=True)
+		elif r < 0.35:
+			vs = sorted(vs)
+		elif r < 0.5:
+			vs = vs[:n // 2 + 1] * 2
+		out.append({'k': 'sort', 'vs': [list(v) for v in vs], 'o': [rng.choice(['tuple', 'str', 'bytes', 'list', 'proto', 'strtuple']) for _ in vs], 'x': rng.choice(['tuple', 'list', 'str', 'bytes', 'strtuple'])})
+	word_lists = []
+	for _ in range(24 * mult):
+		ws = [rng.choice(ODD_WORDS) for _ in range(rng.randint(2, 5))]
+		word_lists += [ws, sorted(ws), sorted(ws, reverse=True), ws + ws[:1], [ws[0]] * rng.randint(2, 4)]
+	for ws in word_lists:
+		reason = b' '.join(ws)
+		code = rng.randint(100, 599)
+		v = rng.choice(grid)
+		which = rng.randrange(3)
+		out.append({'k': 'status', 's': (b'%d ' % code + reason).hex()})
+		if which == 0:
+			out.append({'k': 'resp', 'line': (_vtext(v) + b' %d ' % code + reason + b'\r\n').hex()})
+		elif which == 1:
+			out.append({'k': 'client', 'line': (_vtext((1, rng.randint(0, 1))) + b' %d ' % code + reason).hex()})
+		else:
+			out.append({'k': 'resp_compose', 'v': list(v), 'code': code, 'reason': reason.decode()})
+
+	# (15) the same values through every order of constructor arguments and attribute assignments; cross products of the components
+	import itertools
+	fields = ['method', 'uri', 'protocol']
+	for _ in range(8 * mult):
+		for n in range(4):
+			for ctor in itertools.combinations(fields, n):
+				rest = [f for f in fields if f not in ctor]
+				for order in itertools.permutations(rest):
+					if rng.random() < 0.5 or big:
+						out.append({'k': 'perm', 'cls': 'request', 'm': rng.choice(good_m), 't': rng.choice(SAFE_TARGETS).decode(), 'v': rv(), 'pt': rng.choice(['tuple', 'str', 'bytes', 'proto', 'list']),
+							'ctor': list(ctor), 'order': list(order), 'pre': (b'DELETE /old ' + _vtext(rng.choice(grid))).hex() if not ctor and rng.random() < 0.5 else None})
+	for _ in range(20 * mult):
+		for ctor in ([], ['protocol'], ['status'], ['protocol', 'status']):
+			rest = [f for f in ('protocol', 'status') if f not in ctor]
+			for order in itertools.permutations(rest):
+				st = 'int' if 'status' in ctor else rng.choice(['tuple', 'str', 'bytes', 'status', 'code_reason', 'reason_code', 'int'])
+				out.append({'k': 'perm', 'cls': 'response', 'code': rng.randint(100, 599), 'reason': rng.choice(words), 'v': rv(), 'pt': rng.choice(['tuple', 'str', 'bytes', 'proto', 'list']), 'st': st,
+					'ctor': ctor, 'order': list(order), 'pre': (_vtext(rng.choice(grid)) + b' 410 Gone').hex() if not ctor and rng.random() < 0.5 else None})
+	for _ in range(12 * mult):
+		for how in ('ctor2', 'set', 'code_reason', 'reason_code', 'parse', 'ctor_reason', 'ctor_code', 'parse_code', 'parse_reason'):
+			out.append({'k': 'perm', 'cls': 'status', 'code': rng.randint(100, 599), 'reason': rng.choice(words), 'how': how, 'c0': rng.randint(100, 599)})
+	xm = [m.encode() for m in methods if m != 'CONNECT'][:12] + [b'get', b'M-SEARCH', b'$x_y.z-1', b'A' * 20]
+	for m in (xm if big else xm[:10] + xm[-2:]):
+		for v in grid:
+			out.append({'k': 'req', 'line': (m + b' ' + rng.choice(SAFE_TARGETS) + b' ' + _vtext(v) + b'\r\n').hex()})
+		for v in ((0, 0), (0, 9), (1, 0), (1, 1), (0, 11), (1, 2), (2, 0), (3, 1)):
+			out.append({'k': 'server', 'line': (m + b' ' + rng.choice(SAFE_TARGETS) + b' ' + _vtext(v)).hex()})
+	xc = [100, 101, 200, 204, 304, 404, 505, 599] + ([102, 199, 205, 206, 300, 400, 426, 500] if big else [])
+	for code in xc:
+		rs = sorted(reasons.get(code, ['X']))[0] or 'X'
+		for v in grid:
+			out.append({'k': 'resp', 'line': (_vtext(v) + b' %d ' % code + rs.encode('latin-1') + b'\r\n').hex()})
+		for v in ((0, 9), (1, 0), (1, 1), (1, 2), (2, 0)):
+			out.append({'k': 'client', 'line': (_vtext(v) + b' %d ' % code + rs.encode('latin-1')).hex()})
+
+	# (16) value-dependent branches: many cheap names / numbers / phrases of special shape
+	alpha = bytes(PROP_ALPHABET)
+	names = [bytes([ch]) for ch in alpha] + [bytes([a, b]) for a in b'-_.$09AZaz' for b in b'-_.$09AZaz'] + ODD_METHODS
+	fill = b'GETPUTHEADPOSTxyz012'
+	for ch in alpha:
+		names.append(bytes([ch]) + fill[:19])
+		names.append(fill[:19] + bytes([ch]))
+	for i, m in enumerate(names):
+		out.append({'k': 'method', 'm': m.hex()})
+		if i % 3 == 0 or big:
+			out.append({'k': 'req', 'line': (m + b' / HTTP/1.1').hex()})
+		if i % 8 == 0:
+			out.append({'k': 'server', 'line': (m + b' / HTTP/1.0').hex()})
+	for _ in range(150 * mult):
+		a, b = rng.choice(NUMS), rng.choice(NUMS)
+		out.append({'k': 'proto', 's': _vtext((a, b)).hex()})
+		out.append({'k': 'proto_compose', 'v': ['%x' % a, '%x' % b]})
+	small = NUMS[:16]
+	for _ in range(300 * mult):
+		x, y = rng.choice(small), rng.choice(small)
+		if rng.random() < 0.5:
+			p, q = (1, x), (1, y)
+		else:
+			p, q = (x, rng.choice([0, 1, 10])), (y, rng.choice([0, 1, 10]))
+		out.append({'k': 'cmp', 'p': list(p), 'o': rng.choice(['ver', 'tuple', 'bytes', 'str', 'list', 'strtuple']), 'q': list(q)})
+
+	# (17) lengths 2^k and 2^k+-1, k = 9..16, in every position that has a length (those already in LIMITS were done in the fourth wave)
+	for n in POW2:
+		if n in LIMITS:
+			continue
+		huge = n > 9000 and not big
+		v = rng.choice(grid)
+		vt = _vtext(v)
+		code = rng.randint(100, 599)
+		word = b'r' * n
+		many = (b'ab ' * (n // 3 + 1))[:n]
+		many = many[:-1] + b'b' if many.endswith(b' ') else many
+		out.append({'k': 'status', 's': (b'%d ' % code + word).hex()})
+		out.append({'k': 'status', 's': (b'%d ' % code + many).hex()})
+		out.append({'k': 'resp', 'line': (vt + b' %d ' % code + many + b'\r\n').hex()})
+		out.append({'k': 'client', 'line': (_vtext((1, 1)) + b' %d ' % code + word).hex()})
+		if n <= 4097:
+			out.append({'k': 'status_compose', 'code': code, 'reason': many.decode()})
+		# the whole line is n octets long (with and without its CRLF)
+		for eol in (b'\r\n', b''):
+			head = b'GET /'
+			out.append({'k': 'req', 'line': (head + b'p' * (n - len(head) - 1 - len(vt) - len(eol)) + b' ' + vt + eol).hex()})
+			head = vt + b' %d ' % code
+			out.append({'k': 'resp', 'line': (head + b'w' * (n - len(head) - len(eol)) + eol).hex()})
+		own_v = _vtext(rng.choice([(1, 0), (1, 1), (0, 9)]))
+		out.append({'k': 'server', 'line': (b'GET' + b' ' * (n - 4 - len(own_v)) + b'/ ' + own_v).hex()})
+		out.append({'k': 'client', 'line': (b'HTTP/1.0 %d ' % code + b'w' * (n - 13)).hex()})
+		if huge:
+			continue
+		blanks = b' ' * n
+		out.append({'k': 'req', 'line': (b'GET /' + b't' * n + b' ' + vt + b'\r\n').hex()})
+		out.append({'k': 'req', 'line': (b'GET' + blanks + b'/ ' + vt).hex()})
+		out.append({'k': 'req', 'line': (b'PUT /x' + blanks + vt + blanks).hex()})
+		out.append({'k': 'resp', 'line': (vt + blanks + b'%d OK' % code).hex()})
+		out.append({'k': 'resp', 'line': (vt + b' %d' % code + blanks + b'Not Found').hex()})
+		out.append({'k': 'status', 's': (b'%d' % code + blanks + b'OK').hex()})
+		out.append({'k': 'client', 'line': (_vtext((1, 0)) + blanks + b'%d' % code + b' OK').hex()})
+		if n <= 4097:
+			for vtxt in (b'HTTP/' + b'7' * n + b'.1', b'HTTP/1.' + b'7' * n, b'HTTP/' + b'0' * (n - 1) + b'1.' + b'0' * n):
+				out.append({'k': 'proto', 's': vtxt.hex()})
+				out.append({'k': 'req', 'line': (b'GET / ' + vtxt).hex()})
+				out.append({'k': 'resp', 'line': (vtxt + b' 200 OK').hex()})
+			out.append({'k': 'server', 'line': (b'GET / HTTP/' + b'0' * (n - 1) + b'1.' + b'0' * (n - 1) + rng.choice([b'0', b'1', b'2'])).hex()})
+	for c in out:
+		if len(c.get('line', '')) + len(c.get('s', '')) + len(c.get('m', '')) + 2 * len(c.get('reason', '')) > 600:
+			c['nocoq'] = 1
+	return out
+
+
+def _line_of(msg):
+	return _hexb(lambda: msg)
+
+
+def _sv(st):
+	try:
+		return [bytes(st).hex(), st.code, st.reason, int(st)]
+	except Exception as exc:
+		return ['exc:%s' % type(exc).__name__, None, None, None]
+
+
+def _observe5(c):
+	k = c['k']
+	if k == 'alias':
+		return _observe_alias(c)
+	if k == 'argt':
+		return _observe_argt(c)
+	if k == 'refuse':
+		return _observe_refuse(c)
+	if k == 'knob':
+		import httoop.version as hv
+		sp = hv.ServerProtocol
+		orig = tuple(int(x) for x in sp)
+		sp.set(tuple(c['own']))
+		try:
+			return _observe_server(c)
+		finally:
+			sp.set(orig)
+	if k == 'sort':
+		return _observe_sort(c)
+	if k == 'perm':
+		return _observe_perm(c)
+	raise ValueError(k)
+
+
+def _observe_alias(c):
+	from httoop.messages.protocol import Protocol
+	from httoop.messages.request import Request
+	from httoop.messages.response import Response
+	from httoop.status.status import Status
+	sc = c['sc']
+	if sc == 'proto_arg':
+		v0, v1, v2, v3 = c['v']
+		kind = c['arg']
+		arg = _mkver(kind, v0)
+		a = Protocol(arg)
+		b = Protocol(arg)
+		cc = Protocol(a)
+		mid = _argval(kind, arg)
+		b.parse(_vtext(v1))
+		cc.set(tuple(v2))
+		mid2 = _argval(kind, arg)
+		if kind == 'list':
+			arg[0], arg[1] = v3
+		elif kind in ('dict', 'odict', 'deque'):
+			arg.clear()
+		elif kind == 'proto':
+			arg.parse(_vtext(v3))
+		return {'A': _pv(a), 'B': _pv(b), 'C': _pv(cc), 'arg': mid, 'arg2': mid2}
+	if sc == 'status_arg':
+		(c0, c1, c2), (r0, r1, r2) = c['c'], c['r']
+		if c['arg'] == 'status':
+			s0 = Status()
+			s0.set((c0, r0))
+		else:
+			s0 = (c0, r0)
+		a = Status()
+		a.set(s0)
+		b = Status()
+		b.set(s0)
+		b.parse(b'%d ' % c1 + r1.encode())
+		mid = _sv(s0) if c['arg'] == 'status' else list(s0)
+		if c['arg'] == 'status':
+			s0.reason = r2
+			s0.code = c2
+		return {'A': _sv(a), 'B': _sv(b), 'arg': mid}
+	if sc in ('msg_ctor', 'msg_assign'):
+		mk = Request if c['cls'] == 'request' else Response
+		req = c['cls'] == 'request'
+		if sc == 'msg_ctor':
+			v0, v1, v2 = c['v']
+			p = _mkver(c['arg'], v0)
+			r1 = mk(protocol=p)
+			r2 = mk(protocol=p)
+			r3 = mk()
+			r4 = mk()
+			r2.parse(b'PUT /x ' + _vtext(v1) if req else _vtext(v1) + b' 404 Not Found')
+			r3.protocol = tuple(v2)
+			r5 = mk()
+			return {'r': [_line_of(r) for r in (r1, r2, r3, r4, r5)], 'arg': _argval(c['arg'], p)}
+		v0, v1 = c['v']
+		r1 = mk()
+		r1.protocol = tuple(v0)
+		if req:
+			r1.method = c['m']
+		else:
+			r1.status = (c['c'], c['r'])
+		r2 = mk()
+		r2.protocol = r1.protocol
+		if req:
+			r2.method = bytes(r1.method)
+		else:
+			r2.status = r1.status
+		tgt, other = (r2, r1) if c['dir'] == 0 else (r1, r2)
+		if c['how'] == 'inplace':
+			tgt.protocol.parse(_vtext(v1))
+			if req:
+				tgt.method.parse(b'LOCK')
+			else:
+				tgt.status.parse(b'410 Gone away')
+		elif c['how'] == 'attr':
+			tgt.protocol = tuple(v1)
+			if req:
+				tgt.method = 'LOCK'
+			else:
+				tgt.status = (410, 'Gone away')
+		else:
+			tgt.parse(b'LOCK / ' + _vtext(v1) if req else _vtext(v1) + b' 410 Gone away')
+		return {'r': [_line_of(tgt), _line_of(other)]}
+	import httoop.version as hv
+	if sc == 'server_resp':
+		from httoop.server import ServerStateMachine
+		own0 = [int(x) for x in hv.ServerProtocol]
+		try:
+			tail = b'\r\nHost: x\r\nContent-Length: 0\r\n\r\n'
+			sm = ServerStateMachine('http', 'localhost', 80)
+			(req, resp), = sm.parse(c['m'].encode() + b' / ' + _vtext(c['v']) + tail)
+			before = [_pv(req.protocol), _pv(resp.protocol)]
+			tgt = resp if c['act'].startswith('resp') else req
+			if c['act'].endswith('parse'):
+				tgt.protocol.parse(_vtext(c['v1']))
+			else:
+				tgt.protocol = tuple(c['v1'])
+			after = [_pv(req.protocol), _pv(resp.protocol)]
+			own1 = [int(x) for x in hv.ServerProtocol]
+			(req2, resp2), = sm.parse(b'GET / HTTP/1.1' + tail)
+			second = [_pv(req2.protocol), _pv(resp2.protocol)]
+			after2 = [_pv(req.protocol), _pv(resp.protocol)]
+			(req3, resp3), = ServerStateMachine('http', 'localhost', 80).parse(b'GET / HTTP/1.1' + tail)
+			return {'res': 'ok', 'own': [own0, own1, [int(x) for x in hv.ServerProtocol]], 'before': before, 'after': after, 'second': second, 'after2': after2, 'fresh': [_pv(req3.protocol), _pv(resp3.protocol)]}
+		except Exception as exc:
+			return {'res': 'exc:%s: %s' % (type(exc).__name__, exc)}
+		finally:
+			if [int(x) for x in hv.ServerProtocol] != own0:
+				hv.ServerProtocol.set(tuple(own0))
+	if sc == 'client_resp':
+		from httoop.client import ClientStateMachine
+		v0, v1, v2 = c['v']
+		try:
+			tail = b'\r\nContent-Length: 0\r\n\r\n'
+			sm = ClientStateMachine()
+			sm.request = Request()
+			resp, = sm.parse(_vtext(v0) + b' 200 OK' + tail)
+			before = [_line_of(resp), _line_of(sm.request)]
+			act = c['act']
+			if act == 'proto_parse':
+				resp.protocol.parse(_vtext(v1))
+			elif act == 'proto_set':
+				resp.protocol = tuple(v1)
+			elif act == 'status_parse':
+				resp.status.parse(b'410 Gone away')
+			else:
+				resp.status = (410, 'Gone away')
+			after = [_line_of(resp), _line_of(sm.request)]
+			resp2, = sm.parse(_vtext(v2) + b' 404 Not Found' + tail)
+			return {'res': 'ok', 'before': before, 'after': after, 'second': [_line_of(resp2), _line_of(sm.request)], 'after2': _line_of(resp), 'new': [_line_of(Response()), _line_of(Request())]}
+		except Exception as exc:
+			return {'res': 'exc:%s: %s' % (type(exc).__name__, exc)}
+	raise ValueError(sc)
+
+
+def _six(p, mk, skip=()):
+	import operator
+	out = {}
+	for name, fn in (('eq', operator.eq), ('ne', operator.ne), ('lt', operator.lt), ('le', operator.le), ('gt', operator.gt), ('ge', operator.ge)):
+		if name not in skip:
+			out[name] = _cmp(lambda: fn(p, mk()))
+	return out
+
+
+def _observe_argt(c):
+	from httoop.messages.method import Method
+	from httoop.messages.protocol import Protocol
+	from httoop.messages.request import Request
+	from httoop.messages.response import Response
+	from httoop.status.status import Status
+	sc = c['sc']
+	if sc == 'pset':
+		kind, how = c['arg'], c['how']
+		arg = _mkver(kind, c['v'])
+		box = []
+
+		def run():
+			if how == 'ctor':
+				box.append(Protocol(arg))
+			elif how == 'set':
+				p = Protocol((7, 7))
+				box.append(p)
+				p.set(arg)
+			elif how in ('reqctor', 'respctor'):
+				r = (Request if how == 'reqctor' else Response)(protocol=arg)
+				box.extend([r.protocol, r])
+			else:
+				r = Request() if how == 'reqattr' else Response()
+				r.protocol = arg
+				box.extend([r.protocol, r])
+		res = _try(run)
+		return {'res': res, 'p': _pv(box[0]) if box else None, 'line': _line_of(box[1]) if len(box) > 1 else None, 'arg': _argval(kind, arg) if res == 'ok' else None}
+	if sc == 'pcmp':
+		p = Protocol(tuple(c['p']))
+		out = _six(p, lambda: _mkver(c['arg'], c['q']), ('le', 'ge') if c['arg'] in ONESHOT else ())
+		out['p'] = _pv(p)
+		return out
+	if sc == 'parse':
+		wrap = {'bytes': bytes, 'bytearray': bytearray, 'memoryview': memoryview}[c['wrap']]
+		data = wrap(bytes.fromhex(c['data']))
+		obj = {'proto': Protocol, 'status': Status, 'resp': Response, 'method': Method}[c['obj']]()
+		res = _try(lambda: obj.parse(data))
+		out = {'res': res, 'bytes': _line_of(obj)}
+		if res == 'ok' and c['obj'] != 'resp':
+			try:
+				out['text'] = [str(obj), format(obj), '%s' % (obj,), '{0:>3}'.format(obj)]
+			except Exception as exc:
+				out['text'] = 'exc:%s' % type(exc).__name__
+		if c['obj'] == 'proto':
+			out['p'] = _pv(obj)
+		elif c['obj'] == 'status':
+			out['s'] = _sv(obj)
+		return out
+	if sc == 'mset':
+		name = c['name'] if c['t'] == 'str' else c['name'].encode('latin-1')
+		how = c['how']
+		box = []
+
+		def run():
+			if how == 'ctor':
+				box.append(Method(name))
+			elif how == 'set':
+				box.append(Method('PUT'))
+				box[0].set(name)
+			elif how == 'reqctor':
+				r = Request(method=name)
+				box.extend([r.method, r])
+			else:
+				r = Request(method='PUT')
+				box.extend([r.method, r])
+				r.method = name
+		res = _try(run)
+		return {'res': res, 'm': _line_of(box[0]) if box else None, 'line': _line_of(box[1]) if len(box) > 1 else None}
+	if sc == 'sset':
+		code, reason, t, how = c['code'], c['reason'], c['t'], c['how']
+		if t == 'status':
+			arg = Status()
+			arg.set((code, reason))
+		else:
+			arg = {'tuple': (code, reason), 'tupleb': (code, reason.encode()), 'tuples': (str(code), reason), 'tuplebb': (b'%d' % code, reason.encode()), 'str': '%d %s' % (code, reason),
+				'bytes': b'%d ' % code + reason.encode(), 'int': code}[t]
+		box = []
+
+		def run():
+			if how == 'set':
+				box.append(Status(204))
+				box[0].set(arg)
+			elif how == 'ctor2':
+				box.append(Status(code) if t == 'int' else Status(arg[0], arg[1]))
+			else:
+				r = Response()
+				box.extend([r.status, r])
+				r.status = arg
+		res = _try(run)
+		return {'res': res, 's': _sv(box[0]) if box else None, 'line': _line_of(box[1]) if len(box) > 1 else None, 'fresh': _sv(Status(code)) if t == 'int' else None}
+	raise ValueError(sc)
+
+
+def _attempt(fn):
+	"""'ok' or 'refused:<exception class>'"""
+	try:
+		fn()
+		return 'ok'
+	except Exception as exc:
+		return 'refused:%s' % type(exc).__name__
+
+
+def _observe_refuse(c):
+	import operator
+	from httoop.messages.method import Method
+	from httoop.messages.protocol import Protocol
+	from httoop.messages.request import Request
+	from httoop.messages.response import Response
+	from httoop.status.status import Status
+	obj = c['obj']
+	cmpops = {'lt': operator.lt, 'gt': operator.gt, 'le': operator.le, 'ge': operator.ge, 'eq': operator.eq, 'ne': operator.ne}
+	if obj == 'method':
+		m = Method(c['init'])
+
+		def state():
+			try:
+				return [bytes(m).hex(), str(m), hash(m) == hash(bytes(m)), m == c['init']]
+			except Exception as exc:
+				return ['exc:%s' % type(exc).__name__]
+		out = [['init', state()]]
+		for op, spec in c['ops']:
+			arg = _mkbad(spec)
+			out.append([_attempt(lambda: m.parse(arg) if op == 'parse' else m.set(arg)), state()])
+		out.append([_attempt(lambda: m.parse(b'PATCH')), state()])
+		return {'s': out}
+	if obj == 'proto':
+		p = Protocol(tuple(c['init']))
+
+		def state():
+			return _pv(p) + [_hexb(lambda: p.name)]
+		out = [['init', state()]]
+		for op, spec in c['ops']:
+			arg = _mkbad(spec)
+			if op == 'parse':
+				r = _attempt(lambda: p.parse(arg))
+			elif op == 'set':
+				r = _attempt(lambda: p.set(arg))
+			else:
+				r = _attempt(lambda: cmpops[op](p, arg))
+			out.append([r, state()])
+		out.append([_attempt(lambda: p.set((3, 4))), state()])
+		return {'s': out}
+	if obj == 'status':
+		st = Status()
+		st.set(tuple(c['init']))
+		out = [['init', _sv(st)]]
+		for op, spec in c['ops']:
+			arg = _mkbad(spec)
+			if op == 'parse':
+				r = _attempt(lambda: st.parse(arg))
+			elif op == 'set':
+				r = _attempt(lambda: st.set(arg))
+			else:
+				def assign():
+					st.code = arg
+				r = _attempt(assign)
+			out.append([r, _sv(st)])
+		out.append([_attempt(lambda: st.parse(b'418 I am a teapot')), _sv(st)])
+		return {'s': out}
+	if obj == 'status_unenc':
+		st = Status()
+		st.set(tuple(c['init']))
+		out = [['init', _sv(st)]]
+
+		def assign():
+			st.reason = c['text']
+		r = _attempt(assign)
+		out.append([r, _attempt(lambda: bytes(st)), st.code, [ord(ch) for ch in st.reason]])
+		resp = Response()
+		resp.protocol = (1, 0)
+		r2 = _attempt(lambda: setattr(resp, 'status', (c['init'][0], c['text'])))
+		out.append([r2, _attempt(lambda: bytes(resp)), resp.status.code, [ord(ch) for ch in resp.status.reason], _pv(resp.protocol)])
+
+		def assign2():
+			st.reason = 'Fine'
+		out.append([_attempt(assign2), _sv(st)])
+		resp.status.reason = 'Fine'
+		out.append(['ok', _line_of(resp)])
+		return {'s': out}
+	if obj in ('request', 'response'):
+		if obj == 'request':
+			msg = Request()
+			msg.method = c['init'][0]
+			msg.protocol = tuple(c['init'][1])
+		else:
+			msg = Response()
+			msg.protocol = tuple(c['init'][0])
+			msg.status = (c['init'][1], c['init'][2])
+		out = [['init', _line_of(msg)]]
+		for op, spec in c['ops']:
+			arg = _mkbad(spec)
+			if op == 'parse':
+				r = _attempt(lambda: msg.parse(arg))
+			else:
+				r = _attempt(lambda: setattr(msg, op, arg))
+			out.append([r, _line_of(msg)])
+		out.append([_attempt(lambda: msg.parse(b'PATCH /z HTTP/0.9' if obj == 'request' else b'HTTP/0.9 418 I am a teapot')), _line_of(msg)])
+		return {'s': out}
+	if obj == 'server':
+		import httoop.version as hv
+		from httoop.server import ServerStateMachine
+		from httoop.status.types import StatusException
+		own0 = [int(x) for x in hv.ServerProtocol]
+		tail = b'\r\nHost: x\r\nContent-Length: 0\r\n\r\n'
+		try:
+			sm = ServerStateMachine('http', 'localhost', 80)
+			try:
+				sm.parse(bytes.fromhex(c['bad']) + tail)
+				first = 'ok'
+			except StatusException as exc:
+				first = int(exc.code)
+			except Exception as exc:
+				first = _exc(exc)
+			own1 = [int(x) for x in hv.ServerProtocol]
+			try:
+				(req, resp), = ServerStateMachine('http', 'localhost', 80).parse(b'GET / ' + _vtext(c['v']) + tail)
+				nxt = [_pv(req.protocol), _pv(resp.protocol)]
+			except Exception as exc:
+				nxt = 'exc:%s' % type(exc).__name__
+			return {'s': [first, own0, own1, nxt, [_line_of(Request()), _line_of(Response())]]}
+		finally:
+			if [int(x) for x in hv.ServerProtocol] != own0:
+				hv.ServerProtocol.set(tuple(own0))
+	raise ValueError(obj)
+
+
+def _observe_sort(c):
+	from httoop.messages.protocol import Protocol
+	items = [Protocol(_mkver(o, v)) for o, v in zip(c['o'], c['vs'])]
+
+	def vals(fn):
+		try:
+			r = fn()
+			return [[int(x) for x in p.version] for p in (r if isinstance(r, list) else [r])]
+		except Exception as exc:
+			return 'exc:%s' % type(exc).__name__
+	out = {'sorted': vals(lambda: sorted(items)), 'rsorted': vals(lambda: sorted(items, reverse=True)), 'min': vals(lambda: min(items)), 'max': vals(lambda: max(items)),
+		'rmin': vals(lambda: min(reversed(items))), 'rmax': vals(lambda: max(reversed(items))), 'items': [_pv(p) for p in items]}
+	import operator
+	refl = []
+	for v, p in zip(c['vs'], items[1:] + items[:1]):  # the plain operand on the LEFT of the operator
+		refl.append([_cmp(lambda: fn(_mkver(c['x'], v), p)) for fn in (operator.eq, operator.ne, operator.lt, operator.le, operator.gt, operator.ge)])
+	out['refl'] = refl
+	return out
+
+
+def _observe_perm(c):
+	from httoop.messages.protocol import Protocol
+	from httoop.messages.request import Request
+	from httoop.messages.response import Response
+	from httoop.status.status import Status
+	cls = c['cls']
+	try:
+		if cls == 'request':
+			vals = {'method': c['m'], 'uri': c['t'], 'protocol': _mkver(c['pt'], c['v'])}
+			r = Request(**{f: vals[f] for f in c['ctor']})
+			if c.get('pre'):
+				r.parse(bytes.fromhex(c['pre']))
+			for f in c['order']:
+				setattr(r, f, vals[f])
+			return {'line': _line_of(r), 'again': _line_of(r)}
+		if cls == 'response':
+			code, reason = c['code'], c['reason']
+			kw = {}
+			if 'protocol' in c['ctor']:
+				kw['protocol'] = _mkver(c['pt'], c['v'])
+			if 'status' in c['ctor']:
+				kw['status'] = code
+			r = Response(**kw)
+			if c.get('pre'):
+				r.parse(bytes.fromhex(c['pre']))
+			for f in c['order']:
+				if f == 'protocol':
+					r.protocol = _mkver(c['pt'], c['v'])
+					continue
+				st = c['st']
+				if st == 'status':
+					x = Status()
+					x.set((code, reason))
+					r.status = x
+				elif st == 'code_reason':
+					r.status.code = code
+					r.status.reason = reason
+				elif st == 'reason_code':
+					r.status.reason = reason
+					r.status.code = code
+				else:
+					r.status = {'tuple': (code, reason), 'str': '%d %s' % (code, reason), 'bytes': b'%d ' % code + reason.encode(), 'int': code}[st]
+			return {'line': _line_of(r), 'again': _line_of(r), 'fresh': _sv(Status(code))}
+		code, reason, how, c0 = c['code'], c['reason'], c['how'], c['c0']
+		if how == 'ctor2':
+			st = Status(code, reason)
+		elif how == 'set':
+			st = Status(c0)
+			st.set((code, reason))
+		elif how == 'code_reason':
+			st = Status(c0)
+			st.code = code
+			st.reason = reason
+		elif how == 'reason_code':
+			st = Status(c0)
+			st.reason = reason
+			st.code = code
+		elif how == 'parse':
+			st = Status(c0, 'zzz')
+			st.parse(b'%d ' % code + reason.encode())
+		elif how == 'ctor_reason':
+			st = Status(code)
+			st.reason = reason
+		elif how == 'ctor_code':
+			st = Status(c0, reason)
+			st.code = code
+		elif how == 'parse_code':
+			st = Status()
+			st.parse(b'%d ' % c0 + reason.encode())
+			st.code = code
+		else:
+			st = Status()
+			st.parse(b'%d zzz' % code)
+			st.reason = reason
+		return {'s': _sv(st), 'again': _sv(st)}
+	except Exception as exc:
+		return {'res': 'exc:%s: %s' % (type(exc).__name__, exc)}
+
+
+def _oracle5(c, o):
+	k = c['k']
+	if k == 'alias':
+		return _oracle_alias(c, o)
+	if k == 'argt':
+		return _oracle_argt(c, o)
+	if k == 'refuse':
+		return _oracle_refuse(c, o['s'])
+	if k == 'knob':
+		own = tuple(c['own'])
+		fail = _oracle_server(c, o, own)
+		return fail and 'with httoop.version.ServerProtocol set to %r: %s' % (own, fail)
+	if k == 'sort':
+		return _oracle_sort(c, o)
+	if k == 'perm':
+		return _oracle_perm(c, o)
+	return None
+
+
+def _sline(v, code, reason):
+	return (_vtext(v) + b' %d ' % code + reason.encode('latin-1') + b'\r\n').hex()
+
+
+def _rline_hex(m, t, v):
+	return ((m if isinstance(m, bytes) else m.encode('latin-1')) + b' ' + (t if isinstance(t, bytes) else t.encode()) + b' ' + _vtext(v) + b'\r\n').hex()
+
+
+def _svwant(code, reason):
+	return [(b'%d ' % code + reason.encode('latin-1')).hex(), code, reason, code]
+
+
+def _oracle_alias(c, o):
+	sc = c['sc']
+	if sc == 'proto_arg':
+		v0, v1, v2, v3 = c['v']
+		kind = c['arg']
+		if o['arg'] != _argwant(kind, v0) or o['arg2'] != _argwant(kind, v0):
+			return 'the %s %r given to Protocol() twice was changed: %r, later %r' % (kind, v0, o['arg'], o['arg2'])
+		if o['A'] != _pvwant(v0):
+			return 'A = Protocol(x), B = Protocol(x), C = Protocol(A) with x = %s %r; B.parse(%r), C.set(%r), x changed to %r afterwards: A is now %r' % (kind, v0, _vtext(v1), v2, v3, o['A'])
+		if o['B'] != _pvwant(v1) or o['C'] != _pvwant(v2):
+			return 'B = Protocol(%s %r) after parse(%r) is %r; C after set(%r) is %r' % (kind, v0, _vtext(v1), o['B'], v2, o['C'])
+		return None
+	if sc == 'status_arg':
+		(c0, c1, c2), (r0, r1, r2) = c['c'], c['r']
+		if o['arg'] != (_svwant(c0, r0) if c['arg'] == 'status' else [c0, r0]):
+			return 'the %s (%d, %r) handed to Status.set of two objects is now %r' % (c['arg'], c0, r0, o['arg'])
+		if o['A'] != _svwant(c0, r0) or o['B'] != _svwant(c1, r1):
+			return 'A.set(x), B.set(x) with x = %s (%d, %r); B.parse(%d %s); x changed afterwards: A is %r, B is %r' % (c['arg'], c0, r0, c1, r1, o['A'], o['B'])
+		return None
+	if sc == 'msg_ctor':
+		v0, v1, v2 = c['v']
+		if c['cls'] == 'request':
+			want = [_rline_hex('GET', '/', v0), _rline_hex('PUT', '/x', v1), _rline_hex('GET', '/', v2), _rline_hex('GET', '/', (1, 1)), _rline_hex('GET', '/', (1, 1))]
+		else:
+			want = [_sline(v0, 200, 'OK'), _sline(v1, 404, 'Not Found'), _sline(v2, 200, 'OK'), _sline((1, 1), 200, 'OK'), _sline((1, 1), 200, 'OK')]
+		if o['r'] != want:
+			return ('r1, r2 = %s(protocol=x) twice with x = %s %r; r3, r4 without argument; r2.parse(line with %r); r3.protocol = %r; r5 new: the five compose to %r, fresh objects give %r'
+				% (c['cls'], c['arg'], v0, _vtext(v1), v2, [bytes.fromhex(x) if not x.startswith('exc') else x for x in o['r']], [bytes.fromhex(x) for x in want]))
+		if o['arg'] != _argwant(c['arg'], v0):
+			return 'the %s %r given as protocol= to two messages is now %r' % (c['arg'], v0, o['arg'])
+		return None
+	if sc == 'msg_assign':
+		v0, v1 = c['v']
+		if c['cls'] == 'request':
+			want = [_rline_hex('LOCK', '/', v1), _rline_hex(c['m'], '/', v0)]
+		else:
+			want = [_sline(v1, 410, 'Gone away'), _sline(v0, c['c'], c['r'])]
+		if o['r'] != want:
+			return ('a second %s took protocol and %s of the first through the setters; then the %s one was changed (%s): changed / other compose to %r, expected %r'
+				% (c['cls'], 'method' if c['cls'] == 'request' else 'status', 'second' if c['dir'] == 0 else 'first', c['how'], [bytes.fromhex(x) if not x.startswith('exc') else x for x in o['r']], [bytes.fromhex(x) for x in want]))
+		return None
+	if o.get('res') != 'ok':
+		return '%s scenario %r: %s' % (sc, {x: c[x] for x in c if x != 'k'}, o.get('res'))
+	if sc == 'server_resp':
+		own = tuple(o['own'][0])
+		v, v1 = tuple(c['v']), tuple(c['v1'])
+		if v > own:
+			return None
+		what = 'request %s / %s served; then %s to %r' % (c['m'], _vtext(v).decode(), c['act'], v1)
+		if o['own'][1] != o['own'][0] or o['own'][2] != o['own'][0]:
+			return '%s: the server\'s own version httoop.version.ServerProtocol changed %r' % (what, o['own'])
+		if o['before'] != [_pvwant(v), _pvwant(min(v, own))]:
+			return '%s: request / response version before the change %r' % (what, o['before'])
+		after = [_pvwant(v), _pvwant(v1)] if c['act'].startswith('resp') else [_pvwant(v1), _pvwant(min(v, own))]
+		if o['after'] != after or o['after2'] != after:
+			return '%s: request / response versions are now %r, after the next request %r; expected %r (one object changed, the other untouched)' % (what, o['after'], o['after2'], after)
+		nxt = [_pvwant((1, 1)), _pvwant(min((1, 1), own))]
+		if o['second'] != nxt or o['fresh'] != nxt:
+			return '%s: the next request HTTP/1.1 on the same machine gives %r, on a new machine %r; expected %r' % (what, o['second'], o['fresh'], nxt)
+		return None
+	if sc == 'client_resp':
+		v0, v1, v2 = c['v']
+		rq = _rline_hex('GET', '/', (1, 1))
+		if o['before'] != [_sline(v0, 200, 'OK'), rq]:
+			return 'client: response %s 200 OK delivered as %r (request %r)' % (_vtext(v0).decode(), o['before'][0], o['before'][1])
+		a = {'proto_parse': _sline(v1, 200, 'OK'), 'proto_set': _sline(v1, 200, 'OK'), 'status_parse': _sline(v0, 410, 'Gone away'), 'status_set': _sline(v0, 410, 'Gone away')}[c['act']]
+		if o['after'] != [a, rq] or o['after2'] != a or o['second'] != [_sline(v2, 404, 'Not Found'), rq] or o['new'] != [_sline((1, 1), 200, 'OK'), rq]:
+			return ('client: response %s 200 OK delivered, %s on it (%r), next response %s 404: first response %r / %r, request %r, second %r, new messages %r'
+				% (_vtext(v0).decode(), c['act'], v1, _vtext(v2).decode(), o['after'][0], o['after2'], o['after'][1], o['second'], o['new']))
+		return None
+	return None
+
+
+def _num6(p, q):
+	return {'eq': p == q, 'ne': p != q, 'lt': p < q, 'le': p <= q, 'gt': p > q, 'ge': p >= q}
+
+
+def _oracle_argt(c, o):
+	sc = c['sc']
+	if sc == 'pset':
+		v, kind, how = c['v'], c['arg'], c['how']
+		what = {'ctor': 'Protocol(x)', 'set': 'Protocol().set(x)', 'reqctor': 'Request(protocol=x)', 'reqattr': 'Request().protocol = x', 'respctor': 'Response(protocol=x)', 'respattr': 'Response().protocol = x'}[how]
+		what = '%s with x = %s of %r' % (what, kind, v)
+		if o['res'] != 'ok':
+			return '%s: %s' % (what, o['res'])
+		if o['p'] != _pvwant(v):
+			return '%s gives %r, expected %r' % (what, o['p'], _pvwant(v))
+		if how.startswith('req') and o['line'] != _rline_hex('GET', '/', v) or how.startswith('resp') and o['line'] != _sline(v, 200, 'OK'):
+			return '%s: the message composes to %r' % (what, o['line'])
+		if o['arg'] != _argwant(kind, v):
+			return '%s: the argument object now holds %r' % (what, o['arg'])
+		return None
+	if sc == 'pcmp':
+		p, q = tuple(c['p']), tuple(c['q'])
+		for op, w in sorted(_num6(p, q).items()):
+			if op in o and o[op] != ('T' if w else 'F'):
+				return 'Protocol(%r) %s <%s of %r> gave %s, numeric order says %s' % (p, op, c['arg'], q, o[op], w)
+		if o['p'] != _pvwant(p):
+			return 'Protocol(%r) after six comparisons with a %s: %r' % (p, c['arg'], o['p'])
+		return None
+	if sc == 'parse':
+		data = bytes.fromhex(c['data'])
+		what = '%s.parse(%s(%r))' % (c['obj'], c['wrap'], data)
+		text = None
+		if c['obj'] == 'proto':
+			form = _version_form(data)
+			good = form is not None
+			if good:
+				v = (int(form[0]), int(form[1]))
+				text = _vtext(v)
+				if o.get('p') != _pvwant(v) and o['res'] == 'ok':
+					return '%s gives %r' % (what, o['p'])
+		elif c['obj'] == 'status':
+			f = _status_fields(data)
+			good = f is not None and 100 <= f[0] <= 599
+			if good:
+				text = data
+				if o['res'] == 'ok' and o['s'] != _svwant(f[0], f[1].decode()):
+					return '%s gives %r' % (what, o['s'])
+		elif c['obj'] == 'method':
+			good = _is_prop_method(data)
+			text = data
+		else:
+			f = data.split(None, 2)
+			good = len(f) == 3 and _version_form(f[0]) is not None and f[1].isdigit() and len(f[1]) == 3 and 100 <= int(f[1]) <= 599 and _is_words(f[2].rstrip(WS))
+			if good:
+				form = _version_form(f[0])
+				text = _vtext((int(form[0]), int(form[1]))) + b' ' + f[1] + b' ' + f[2].rstrip(WS) + b'\r\n'
+		if good != (o['res'] == 'ok') or not good and o['res'] != 'line':
+			return '%s: %s, the bytes form is %s' % (what, o['res'], 'accepted' if good else 'rejected as invalid line')
+		if good and o['bytes'] != text.hex():
+			return '%s composes to %r, expected %r' % (what, o['bytes'], text)
+		if good and 'text' in o and o['text'] != [text.decode()] * 3 + [text.decode().rjust(3)]:
+			return '%s: str / format / %%s / format with width give %r, expected %r' % (what, o['text'], text.decode())
+		return None
+	if sc == 'mset':
+		name = c['name']
+		mb = name.encode('latin-1')
+		how = c['how']
+		what = {'ctor': 'Method(x)', 'set': "Method('PUT').set(x)", 'reqctor': 'Request(method=x)', 'reqattr': "Request(method='PUT').method = x"}[how] + ' with x = %s %r' % (c['t'], name)
+		if _is_prop_method(mb):
+			if o['res'] != 'ok' or o['m'] != mb.hex() or (how.startswith('req') and o['line'] != _rline_hex(mb, '/', (1, 1))):
+				return '%s: %s, method %r, line %r' % (what, o['res'], o['m'], o['line'])
+			return None
+		if (_bad_method_octet(mb) or not mb) and o['res'] == 'ok':
+			return '%s was accepted (method %r)' % (what, o['m'])
+		if o['res'] != 'ok' and how in ('set', 'reqattr') and (o['m'] != b'PUT'.hex() or (how == 'reqattr' and o['line'] != _rline_hex('PUT', '/', (1, 1)))):
+			return '%s was refused (%s) but left the method %r, line %r' % (what, o['res'], o['m'], o['line'])
+		return None
+	if sc == 'sset':
+		code, reason, t, how = c['code'], c['reason'], c['t'], c['how']
+		what = {'set': 'Status(204).set(x)', 'ctor2': 'Status(code, reason)', 'respattr': 'Response().status = x'}[how] + ' with x = %s of (%d, %r)' % (t, code, reason)
+		if o['res'] != 'ok':
+			return '%s: %s' % (what, o['res'])
+		if t == 'int':
+			fr = o['fresh']
+			if not fr[0].startswith((b'%d ' % code).hex()) or fr[1] != code or fr[3] != code:
+				return 'a fresh Status(%d) is %r' % (code, fr)
+			reason = fr[2]
+		if o['s'] != _svwant(code, reason):
+			return '%s gives %r, expected %r' % (what, o['s'], _svwant(code, reason))
+		if how == 'respattr' and o['line'] != _sline((1, 1), code, reason):
+			return '%s: the response composes to %r' % (what, o['line'])
+		return None
+	return None
+
+
+def _text_of(spec):
+	"""the octets of a str / bytes argument (None: not text, or text that has no octets in ASCII)"""
+	if spec[0] == 'bytes':
+		return bytes.fromhex(spec[1])
+	if spec[0] == 'str':
+		try:
+			return spec[1].encode('ascii')
+		except UnicodeError:
+			return None
+	return None
+
+
+def _oracle_refuse(c, obs):
+	obj = c['obj']
+	if obj == 'status_unenc':
+		code, r0 = c['init']
+		text = c['text']
+		cps = [ord(ch) for ch in text]
+		if obs[0][1] != _svwant(code, r0):
+			return 'Status set to (%d, %r) is %r' % (code, r0, obs[0][1])
+		for who, ob in (('Status', obs[1]), ('Response.status', obs[2])):
+			if ob[0] == 'ok' and (ob[2] != code or ob[3] != cps):
+				return '%s: reason %a assigned: code %r, reason %a' % (who, text, ob[2], ''.join(chr(x) for x in ob[3]))
+			if ob[0] != 'ok' and who == 'Status' and (ob[2] != code or ob[3] != [ord(ch) for ch in r0]):
+				return 'Status: the refused reason %a left code %r, reason %a' % (text, ob[2], ''.join(chr(x) for x in ob[3]))
+		if obs[2][4] != _pvwant((1, 0)):
+			return 'Response: assigning / composing the reason %a changed the version to %r' % (text, obs[2][4])
+		if obs[3] != ['ok', _svwant(code, 'Fine')]:
+			return 'Status (%d, %r): after the reason %a (compose: %s) and then the reason "Fine": %r' % (code, r0, text, obs[1][1], obs[3])
+		if obs[4][1] != _sline((1, 0), code, 'Fine'):
+			return 'Response HTTP/1.0 %d: after the reason %a (compose: %s) and then the reason "Fine": %r' % (code, text, obs[2][1], obs[4][1])
+		return None
+	if obj == 'server':
+		first, own0, own1, nxt, new = obs
+		v = tuple(c['v'])
+		own = tuple(own0)
+		bad = bytes.fromhex(c['bad'])
+		if own1 != own0:
+			return 'after the request line %r (answer %r) the server\'s own version is %r, it was %r' % (bad, first, own1, own0)
+		if v <= own and nxt != [_pvwant(v), _pvwant(min(v, own))]:
+			return 'after the request line %r (answer %r) on one machine, a NEW machine serves GET / %s with versions %r' % (bad, first, _vtext(v).decode(), nxt)
+		if new != [_rline_hex('GET', '/', (1, 1)), _sline((1, 1), 200, 'OK')]:
+			return 'after the request line %r (answer %r) new messages compose to %r' % (bad, first, new)
+		return None
+	ops = c['ops']
+
+	def where(i):
+		return 'after %r on one %s object set to %r' % (ops[:i + 1], obj, c['init'])
+
+	def proto_arg(spec):
+		"""(must be refused, value if accepted) for an argument of Protocol.set / parse / the protocol setter"""
+		t = _text_of(spec)
+		if spec[0] in ('bytearray', 'memoryview'):  # a buffer holding a version text: refused by the tree as found (read as an iterable of integers); if a later tree takes it as text, then with that value
+			form = _version_form(bytes.fromhex(spec[1]))
+			return False, (int(form[0]), int(form[1])) if form else None
+		if spec[0] == 'str' and t is None:
+			return True, None
+		if t is not None:
+			return _version_form(t) is None, None
+		return False, None
+
+	def method_arg(spec):
+		t = _text_of(spec)
+		if spec[0] == 'str' and t is None:
+			return True
+		return t is not None and (_bad_method_octet(t) or not t)
+	if obj == 'method':
+		want = [c['init'].encode().hex(), c['init'], True, True]
+		if obs[0][1] != want:
+			return 'Method(%r): %r' % (c['init'], obs[0][1])
+		for i, ((op, spec), (r, st)) in enumerate(zip(ops, obs[1:])):
+			if r == 'ok':
+				return '%s: the method argument %r was accepted' % (where(i), spec) if method_arg(spec) else None
+			if st != want:
+				return '%s: the refused call (%s) left the method as %r, it was %r' % (where(i), r, st, want)
+		if obs[-1] != ['ok', [b'PATCH'.hex(), 'PATCH', True, c['init'] == 'PATCH']]:
+			return '%s: parse(PATCH) afterwards: %r' % (where(len(ops)), obs[-1])
+		return None
+	if obj == 'proto':
+		want = _pvwant(c['init']) + [b'HTTP'.hex()]
+		if obs[0][1] != want:
+			return 'Protocol(%r): %r' % (c['init'], obs[0][1])
+		for i, ((op, spec), (r, st)) in enumerate(zip(ops, obs[1:])):
+			if op in ('parse', 'set'):
+				must, val = proto_arg(spec)
+				if r == 'ok':
+					if must:
+						return '%s: the version argument %r was accepted' % (where(i), spec)
+					if val is None:
+						return None
+					want = _pvwant(val) + [b'HTTP'.hex()]
+			if st != want:
+				return '%s: the %s call (%s) left the version as %r, it was %r' % (where(i), 'refused' if r != 'ok' else 'comparison', r, st, want)
+		if obs[-1] != ['ok', _pvwant((3, 4)) + [b'HTTP'.hex()]]:
+			return '%s: set((3, 4)) afterwards: %r' % (where(len(ops)), obs[-1])
+		return None
+	if obj == 'status':
+		want = _svwant(*c['init'])
+		if obs[0][1] != want:
+			return 'Status%r: %r' % (tuple(c['init']), obs[0][1])
+		for i, ((op, spec), (r, st)) in enumerate(zip(ops, obs[1:])):
+			if r == 'ok':
+				f = _status_fields(bytes.fromhex(spec[1])) if op == 'parse' else None
+				if f is not None and not 100 <= f[0] <= 599:
+					return '%s: the status %r with a code outside 100-599 was accepted' % (where(i), bytes.fromhex(spec[1]))
+				return None
+			if st != want:
+				return '%s: the refused call (%s) left the status as %r, it was %r' % (where(i), r, st, want)
+		if obs[-1] != ['ok', _svwant(418, 'I am a teapot')]:
+			return '%s: parse(418 I am a teapot) afterwards: %r' % (where(len(ops)), obs[-1])
+		return None
+	if obj == 'request':
+		want = _rline_hex(c['init'][0], '/', c['init'][1])
+	else:
+		want = _sline(c['init'][0], c['init'][1], c['init'][2])
+	if obs[0][1] != want:
+		return '%s set to %r composes to %r' % (obj, c['init'], obs[0][1])
+	for i, ((op, spec), (r, st)) in enumerate(zip(ops, obs[1:])):
+		if r == 'ok':
+			if op == 'parse':
+				return '%s: the start line %r (wrong number of fields or malformed version) was accepted' % (where(i), bytes.fromhex(spec[1]))
+			if op == 'method':
+				return '%s: the method argument %r was accepted' % (where(i), spec) if method_arg(spec) else None
+			if op == 'protocol':
+				must, val = proto_arg(spec)
+				if must:
+					return '%s: the version argument %r was accepted' % (where(i), spec)
+				if val is None:
+					return None
+				want = _rline_hex(c['init'][0], '/', val) if obj == 'request' else _sline(val, c['init'][1], c['init'][2])
+			else:
+				return None
+		if st != want:
+			return '%s: the refused call (%s) left the message as %r, it was %r' % (where(i), r, bytes.fromhex(st) if not st.startswith('exc') else st, bytes.fromhex(want))
+	last = _rline_hex('PATCH', '/z', (0, 9)) if obj == 'request' else _sline((0, 9), 418, 'I am a teapot')
+	if obs[-1] != ['ok', last]:
+		return '%s: a valid start line parsed afterwards: %r' % (where(len(ops)), obs[-1])
+	return None
+
+
+def _oracle_sort(c, o):
+	vs = [tuple(v) for v in c['vs']]
+	if o['items'] != [_pvwant(v) for v in vs]:
+		return 'Protocol objects built from %r of %r: %r' % (c['o'], vs, o['items'])
+	want = {'sorted': sorted(vs), 'rsorted': sorted(vs, reverse=True), 'min': [min(vs)], 'max': [max(vs)], 'rmin': [min(vs)], 'rmax': [max(vs)]}
+	for key in ('sorted', 'rsorted', 'min', 'max', 'rmin', 'rmax'):
+		if o[key] != [list(v) for v in want[key]]:
+			return '%s of the Protocol objects %r (rmin / rmax: of the reversed list) gives %r, numeric order says %r' % (key, vs, o[key], want[key])
+	for i, r in enumerate(o['refl']):
+		a, b = vs[i], vs[(i + 1) % len(vs)]
+		w = _num6(a, b)
+		if r != ['T' if w[x] else 'F' for x in ('eq', 'ne', 'lt', 'le', 'gt', 'ge')]:
+			return '<%s of %r> ==, !=, <, <=, >, >= Protocol(%r) (plain operand on the left) gave %r' % (c['x'], a, b, r)
+	return None
+
+
+def _oracle_perm(c, o):
+	if 'res' in o:
+		return 'building a %s through %r: %s' % (c['cls'], {x: c[x] for x in c if x not in ('k', 'cls')}, o['res'])
+	what = {x: c[x] for x in c if x not in ('k',)}
+	if c['cls'] == 'request':
+		want = _rline_hex(c['m'], c['t'], c['v'])
+		if o['line'] != want or o['again'] != want:
+			return 'Request built through %r composes to %r / %r, expected %r' % (what, o['line'], o['again'], bytes.fromhex(want))
+		return None
+	if c['cls'] == 'response':
+		reason = c['reason']
+		if c['st'] == 'int':
+			fr = o['fresh']
+			if not fr[0].startswith((b'%d ' % c['code']).hex()):
+				return 'a fresh Status(%d) is %r' % (c['code'], fr)
+			reason = fr[2]
+		want = _sline(c['v'], c['code'], reason)
+		if o['line'] != want or o['again'] != want:
+			return 'Response built through %r composes to %r / %r, expected %r' % (what, o['line'], o['again'], bytes.fromhex(want))
+		return None
+	want = _svwant(c['code'], c['reason'])
+	if o['s'] != want or o['again'] != want:
+		return 'Status built through %r is %r / %r, expected %r' % (what, o['s'], o['again'], want)
+	return None
